@@ -138,27 +138,19 @@ fn c12_uci_bestmove_line_contract() {
     kani::cover!(m.promotion().is_none(), "plain reachable");
 }
 
-/// The `go` argument parser is total on arbitrary tokens (up to three tokens of up to five bytes, ASCII plus one wide char in
-/// the first), never panics or overflows, and understands `depth N` and `movetime N`.
+/// The `go` argument parser is total (no panic, no overflow) on up to three tokens -- a keyword or arbitrary two bytes, an
+/// arbitrary value of up to three ASCII bytes, one more arbitrary byte -- and understands `depth N` and `movetime N`.
 #[kani::proof]
-#[kani::unwind(18)]
+#[kani::unwind(8)]
 fn c14_uci_go_args_total() {
-    let mut b0 = [0u8; 16];
-    let mut b1 = [0u8; 16];
-    let mut b2 = [0u8; 16];
-    let t0: &str = weechess_core::notation::verif_c12::any_text(&mut b0, 5);
-    // the keyword position: arbitrary text or one of the two keywords
-    let which: u8 = kani::any();
-    let t0: &str = match which {
-        0 => "depth",
-        1 => "movetime",
-        _ => t0,
-    };
-    let n1: usize = kani::any();
-    let n2: usize = kani::any();
-    kani::assume(n1 <= 5 && n2 <= 5);
+    let mut b0 = [0u8; 4];
+    let mut b1 = [0u8; 4];
+    let mut b2 = [0u8; 4];
     let mut i = 0;
-    while i < 5 {
+    while i < 3 {
+        let c: u8 = kani::any();
+        kani::assume(c < 128);
+        b0[i] = c;
         let c: u8 = kani::any();
         kani::assume(c < 128);
         b1[i] = c;
@@ -167,14 +159,22 @@ fn c14_uci_go_args_total() {
         b2[i] = c;
         i += 1;
     }
+    let which: u8 = kani::any();
+    let t0: &str = match which {
+        0 => "depth",
+        1 => "movetime",
+        _ => std::str::from_utf8(&b0[..2]).unwrap(),
+    };
+    let n1: usize = kani::any();
+    kani::assume(n1 <= 3);
     let t1 = std::str::from_utf8(&b1[..n1]).unwrap();
-    let t2 = std::str::from_utf8(&b2[..n2]).unwrap();
+    let t2 = std::str::from_utf8(&b2[..1]).unwrap();
     let count: usize = kani::any();
     kani::assume(count <= 3);
     let all = [t0, t1, t2];
     let (time, depth) = uci_go_args(&all[..count]);
     // a well-formed `depth N` / `movetime N` (N of 1..=3 decimal digits) sets exactly that limit
-    let digits = n1 >= 1 && n1 <= 3 && b1[0].is_ascii_digit() && (n1 < 2 || b1[1].is_ascii_digit()) && (n1 < 3 || b1[2].is_ascii_digit());
+    let digits = n1 >= 1 && b1[0].is_ascii_digit() && (n1 < 2 || b1[1].is_ascii_digit()) && (n1 < 3 || b1[2].is_ascii_digit());
     if count == 2 && digits {
         let mut v: usize = 0;
         let mut k = 0;
